@@ -1,8 +1,12 @@
 #!/bin/bash
-# try_mutant.sh <patch.diff> <check id> [more ids...]  - apply to /repo, run quick checks, always revert.
+# try_mutant.sh <patch.diff> <check id> [more ids...]  - apply the change in a scratch worktree of /repo's HEAD (so that
+# background runs reading /repo are not disturbed), run the quick checks against it (VERIF_REPO), remove the worktree.
 patch="$1"; shift
-cd /repo || exit 2
-if [ -n "$(git status --porcelain -- icontract)" ]; then echo "repo dirty"; exit 2; fi
+wt=/tmp/trywt_$$
+git -C /repo worktree add -q --detach "$wt" HEAD || exit 3
+cleanup() { git -C /repo worktree remove --force "$wt" 2>/dev/null; }
+trap cleanup EXIT
+cd "$wt" || exit 2
 if ! git apply --check "$patch" 2>/dev/null; then
   if ! patch -p1 -s --dry-run -F3 < "$patch" >/dev/null 2>&1; then echo "PATCH DOES NOT APPLY"; exit 3; fi
   patch -p1 -s -F3 --no-backup-if-mismatch < "$patch"
@@ -10,6 +14,5 @@ else
   git apply "$patch"
 fi
 for id in "$@"; do
-  (cd /verif && timeout 1800 ./check "$id" --tier quick --no-evidence 2>&1 | grep -E "^(VIOLATION|KNOWN|HARNESS|C[0-9]+ tier|  bucket)" | cut -c1-220 | head -8; echo "  -> $id exit=${PIPESTATUS[0]}")
+  (cd /verif && VERIF_REPO="$wt" timeout 1800 ./check "$id" --tier quick --no-evidence 2>&1 | grep -E "^(VIOLATION|KNOWN|HARNESS|C[0-9]+ tier|  bucket)" | cut -c1-220 | head -8; echo "  -> $id exit=${PIPESTATUS[0]}")
 done
-git checkout -- . ; git clean -fdq icontract; git status --porcelain | head -3
